@@ -445,5 +445,21 @@ def ofArrays (fo : FloatOps) (b : Binning) (freq : List Rat) (err2 : Option (Lis
          inner := if keep then inner else some 0, keep := keep, dtype := dtype,
          stats := Stats.invalid }
 
+/-- the members' sum of contents in every bin (`HistogramCollection.sum().frequencies`) -/
+def binSums (hs : List H1) : List Rat :=
+  match hs with
+  | [] => []
+  | h :: _ => (List.range h.freq.length).map fun i => (hs.map fun m => m.freq[i]?.getD 0).sum
+
+/-- `HistogramCollection.normalize_bins`: every member becomes a float histogram whose contents are
+    divided by the members' sum in that bin and whose squared errors by the square of that sum
+    (a bin that is empty in all members divides by zero: numpy yields NaN there, the model `x / 0 = 0`;
+    the harness does not compare such bins). -/
+def normalizeBins (hs : List H1) : List H1 :=
+  let s := binSums hs
+  hs.map fun h => { h with dtype := .f64,
+                           freq := List.zipWith (· / ·) h.freq s,
+                           err2 := List.zipWith (fun e x => e / (x * x)) h.err2 s }
+
 end H1
 end Physt
